@@ -626,6 +626,7 @@ func c14Token(c *mon.Ctx, r *mon.Rand) {
 func c14ImmediateClose(c *mon.Ctx, r *mon.Rand) {
 	prev := runtime.GOMAXPROCS(1)
 	defer runtime.GOMAXPROCS(prev)
+	sightings := 0
 	for k := 0; k < 10; k++ {
 		before := m3Goroutines()
 		opts := m3.Options{Service: "s", Env: "e", MaxQueueSize: []int{1, 64, 4096}[r.Intn(3)], HostPorts: []string{mon.DeadPort()}}
@@ -644,9 +645,16 @@ func c14ImmediateClose(c *mon.Ctx, r *mon.Rand) {
 			c.Violation("close-error", map[string]interface{}{"why": fmt.Sprintf("Close right after construction returned %v", err)})
 		}
 		if alive := m3Goroutines() - before; alive > 0 {
-			c.Violation("m3-goroutine-alive-when-close-returned", map[string]interface{}{"why": fmt.Sprintf("Close was called right after NewReporter (one P: the reporter's goroutines had not run yet) and returned while %d of them still existed", alive)})
+			sightings++
 		}
 		c.Event("immediate-m3-closes", 1)
+	}
+	// (see c08ImmediateClose: a goroutine in its last instructions can be seen
+	// once in a while; one that Close does not wait for is seen every time)
+	if sightings >= 6 {
+		c.Violation("m3-goroutine-alive-when-close-returned", map[string]interface{}{"why": fmt.Sprintf("Close was called right after NewReporter (one P: the reporter's goroutines had not run yet) and returned while one of them still existed - in %d of 10 trials", sightings)})
+	} else if sightings > 0 {
+		c.Class("goroutine-seen-in-its-last-instructions", int64(sightings))
 	}
 	c.Eval(1)
 }
